@@ -1117,7 +1117,11 @@ def run(ctx):
                     run_['exact'] = real_exact(b)
                     run_['snap'] = snapshot(b)
                     case['runs'].append(run_)
-                    if reps == 1 or pname == 'optimize' or (not quick and pname in ('constant_propagation', 'common_subexp_elimination')):
+                    # model tie (the search covers every run).  Quick tier: second applications only for optimize,
+                    # and on the directed designs only the three composite passes (the removal passes are stages of optimize)
+                    if quick and i < len(DIRECTED) and pname.startswith('_remove'):
+                        pass
+                    elif reps == 1 or pname == 'optimize' or (not quick and pname in ('constant_propagation', 'common_subexp_elimination')):
                         reqs.append((pname, reps))     # model tie (the search covers every run)
             restore(block, snap0)
             # ---- phase C: every documented calling convention of optimize() (word-level designs)
